@@ -109,20 +109,21 @@ Definition enc_ts (t : ts) : list N :=
   (if ts_sec t =? 0 then [] else 8 :: encode_varint (ts_sec t)) ++
   (if ts_nanos t =? 0 then [] else 16 :: encode_varint (sext32 (ts_nanos t))).
 
+Definition ts_field (fn wt : N) (b r : list N) (t : ts) : option (list N * ts) :=
+  if fn =? 1 then
+    if wt =? 0 then match vt_varint r with Some (v, r') => Some (r', mkTs v (ts_nanos t)) | None => None end
+    else None
+  else if fn =? 2 then
+    if wt =? 0 then match vt_varint r with Some (v, r') => Some (r', mkTs (ts_sec t) (v mod two32)) | None => None end
+    else None
+  else match skip_one b with
+       | Some r' => Some (r', t)        (* the well-known type drops unknown fields *)
+       | None => None
+       end.
 Definition ts_step (b : list N) (t : ts) : option (list N * ts) :=
   match rd_tag b with
   | None => None
-  | Some (fn, wt, r) =>
-      if fn =? 1 then
-        if wt =? 0 then match vt_varint r with Some (v, r') => Some (r', mkTs v (ts_nanos t)) | None => None end
-        else None
-      else if fn =? 2 then
-        if wt =? 0 then match vt_varint r with Some (v, r') => Some (r', mkTs (ts_sec t) (v mod two32)) | None => None end
-        else None
-      else match skip_one b with
-           | Some r' => Some (r', t)        (* the well-known type drops unknown fields *)
-           | None => None
-           end
+  | Some (fn, wt, r) => ts_field fn wt b r t
   end.
 Definition dec_ts_into (b : list N) (t : ts) : option ts := loop ts_step (length b) b t.
 
@@ -230,56 +231,57 @@ Definition md_set_str (fn : N) (s : bstr) (m : metadata) : metadata :=
   else if fn =? 5 then mkMd x1 x2 x3 x4 s x6 x7 x8 x9 x10 x11 x12
   else mkMd x1 x2 x3 x4 x5 s x7 x8 x9 x10 x11 x12.
 
+Definition md_field (fn wt : N) (b r : list N) (m : metadata) : option (list N * metadata) :=
+  if fn <=? 6 then
+    if wt =? 2 then match rd_bytes r with Some (s, r') => Some (r', md_set_str fn s m) | None => None end
+    else None
+  else if fn =? 7 then
+    if wt =? 2 then
+      match rd_ts r (md_created m) with
+      | Some (t, r') =>
+          let '(mkMd x1 x2 x3 x4 x5 x6 x7 x8 x9 x10 x11 x12) := m in Some (r', mkMd x1 x2 x3 x4 x5 x6 t x8 x9 x10 x11 x12)
+      | None => None
+      end
+    else None
+  else if fn =? 8 then
+    if wt =? 2 then
+      match rd_ts r (md_updated m) with
+      | Some (t, r') =>
+          let '(mkMd x1 x2 x3 x4 x5 x6 x7 x8 x9 x10 x11 x12) := m in Some (r', mkMd x1 x2 x3 x4 x5 x6 x7 t x9 x10 x11 x12)
+      | None => None
+      end
+    else None
+  else if fn =? 9 then
+    if wt =? 2 then
+      match rd_bytes r with
+      | Some (s, r') => let '(mkMd x1 x2 x3 x4 x5 x6 x7 x8 x9 x10 x11 x12) := m in Some (r', mkMd x1 x2 x3 x4 x5 x6 x7 x8 (x9 ++ [s]) x10 x11 x12)
+      | None => None
+      end
+    else None
+  else if fn =? 10 then
+    if wt =? 2 then
+      match rd_entry r with
+      | Some (k0, v0, r') =>
+          let '(mkMd x1 x2 x3 x4 x5 x6 x7 x8 x9 x10 x11 x12) := m in Some (r', mkMd x1 x2 x3 x4 x5 x6 x7 x8 x9 (kv_set x10 k0 v0) x11 x12)
+      | None => None
+      end
+    else None
+  else if fn =? 11 then
+    if wt =? 2 then
+      match rd_entry r with
+      | Some (k0, v0, r') =>
+          let '(mkMd x1 x2 x3 x4 x5 x6 x7 x8 x9 x10 x11 x12) := m in Some (r', mkMd x1 x2 x3 x4 x5 x6 x7 x8 x9 x10 (kv_set x11 k0 v0) x12)
+      | None => None
+      end
+    else None
+  else match skip_one b with
+       | Some r' => let '(mkMd x1 x2 x3 x4 x5 x6 x7 x8 x9 x10 x11 x12) := m in Some (r', mkMd x1 x2 x3 x4 x5 x6 x7 x8 x9 x10 x11 (x12 ++ consumed b r'))
+       | None => None
+       end.
 Definition md_step (b : list N) (m : metadata) : option (list N * metadata) :=
   match rd_tag b with
   | None => None
-  | Some (fn, wt, r) =>
-      if fn <=? 6 then
-        if wt =? 2 then match rd_bytes r with Some (s, r') => Some (r', md_set_str fn s m) | None => None end
-        else None
-      else if fn =? 7 then
-        if wt =? 2 then
-          match rd_ts r (md_created m) with
-          | Some (t, r') =>
-              let '(mkMd x1 x2 x3 x4 x5 x6 x7 x8 x9 x10 x11 x12) := m in Some (r', mkMd x1 x2 x3 x4 x5 x6 t x8 x9 x10 x11 x12)
-          | None => None
-          end
-        else None
-      else if fn =? 8 then
-        if wt =? 2 then
-          match rd_ts r (md_updated m) with
-          | Some (t, r') =>
-              let '(mkMd x1 x2 x3 x4 x5 x6 x7 x8 x9 x10 x11 x12) := m in Some (r', mkMd x1 x2 x3 x4 x5 x6 x7 t x9 x10 x11 x12)
-          | None => None
-          end
-        else None
-      else if fn =? 9 then
-        if wt =? 2 then
-          match rd_bytes r with
-          | Some (s, r') => let '(mkMd x1 x2 x3 x4 x5 x6 x7 x8 x9 x10 x11 x12) := m in Some (r', mkMd x1 x2 x3 x4 x5 x6 x7 x8 (x9 ++ [s]) x10 x11 x12)
-          | None => None
-          end
-        else None
-      else if fn =? 10 then
-        if wt =? 2 then
-          match rd_entry r with
-          | Some (k0, v0, r') =>
-              let '(mkMd x1 x2 x3 x4 x5 x6 x7 x8 x9 x10 x11 x12) := m in Some (r', mkMd x1 x2 x3 x4 x5 x6 x7 x8 x9 (kv_set x10 k0 v0) x11 x12)
-          | None => None
-          end
-        else None
-      else if fn =? 11 then
-        if wt =? 2 then
-          match rd_entry r with
-          | Some (k0, v0, r') =>
-              let '(mkMd x1 x2 x3 x4 x5 x6 x7 x8 x9 x10 x11 x12) := m in Some (r', mkMd x1 x2 x3 x4 x5 x6 x7 x8 x9 x10 (kv_set x11 k0 v0) x12)
-          | None => None
-          end
-        else None
-      else match skip_one b with
-           | Some r' => let '(mkMd x1 x2 x3 x4 x5 x6 x7 x8 x9 x10 x11 x12) := m in Some (r', mkMd x1 x2 x3 x4 x5 x6 x7 x8 x9 x10 x11 (x12 ++ consumed b r'))
-           | None => None
-           end
+  | Some (fn, wt, r) => md_field fn wt b r m
   end.
 Definition dec_md_into (b : list N) (m : metadata) : option metadata := loop md_step (length b) b m.
 Definition dec_md (b : list N) : option metadata := dec_md_into b md_zero.
@@ -289,20 +291,21 @@ Record spec := mkSp { sp_proto : list N; sp_yaml : bstr; sp_unk : list N }.
 Definition sp_zero : spec := mkSp [] [] [].
 Definition enc_spec (s : spec) : list N := enc_str 10 (sp_proto s) ++ enc_str 18 (sp_yaml s) ++ sp_unk s.
 
+Definition sp_field (fn wt : N) (b r : list N) (s : spec) : option (list N * spec) :=
+  if fn =? 1 then
+    if wt =? 2 then match rd_bytes r with Some (x, r') => Some (r', mkSp x (sp_yaml s) (sp_unk s)) | None => None end
+    else None
+  else if fn =? 2 then
+    if wt =? 2 then match rd_bytes r with Some (x, r') => Some (r', mkSp (sp_proto s) x (sp_unk s)) | None => None end
+    else None
+  else match skip_one b with
+       | Some r' => Some (r', mkSp (sp_proto s) (sp_yaml s) (sp_unk s ++ consumed b r'))
+       | None => None
+       end.
 Definition sp_step (b : list N) (s : spec) : option (list N * spec) :=
   match rd_tag b with
   | None => None
-  | Some (fn, wt, r) =>
-      if fn =? 1 then
-        if wt =? 2 then match rd_bytes r with Some (x, r') => Some (r', mkSp x (sp_yaml s) (sp_unk s)) | None => None end
-        else None
-      else if fn =? 2 then
-        if wt =? 2 then match rd_bytes r with Some (x, r') => Some (r', mkSp (sp_proto s) x (sp_unk s)) | None => None end
-        else None
-      else match skip_one b with
-           | Some r' => Some (r', mkSp (sp_proto s) (sp_yaml s) (sp_unk s ++ consumed b r'))
-           | None => None
-           end
+  | Some (fn, wt, r) => sp_field fn wt b r s
   end.
 Definition dec_spec_into (b : list N) (s : spec) : option spec := loop sp_step (length b) b s.
 
@@ -313,35 +316,36 @@ Definition enc_res (x : wres) : list N :=
   (match wr_spec x with Some s => enc_msg 18 (enc_spec s) | None => [] end) ++
   wr_unk x.
 
+Definition wr_field (fn wt : N) (b r : list N) (x : wres) : option (list N * wres) :=
+  if fn =? 1 then
+    if wt =? 2 then
+      match rd_bytes r with
+      | Some (body, r') =>
+          match dec_md_into body (match wr_md x with Some m => m | None => md_zero end) with
+          | Some m => Some (r', mkWr (Some m) (wr_spec x) (wr_unk x))
+          | None => None
+          end
+      | None => None
+      end
+    else None
+  else if fn =? 2 then
+    if wt =? 2 then
+      match rd_bytes r with
+      | Some (body, r') =>
+          match dec_spec_into body (match wr_spec x with Some s => s | None => sp_zero end) with
+          | Some s => Some (r', mkWr (wr_md x) (Some s) (wr_unk x))
+          | None => None
+          end
+      | None => None
+      end
+    else None
+  else match skip_one b with
+       | Some r' => Some (r', mkWr (wr_md x) (wr_spec x) (wr_unk x ++ consumed b r'))
+       | None => None
+       end.
 Definition wr_step (b : list N) (x : wres) : option (list N * wres) :=
   match rd_tag b with
   | None => None
-  | Some (fn, wt, r) =>
-      if fn =? 1 then
-        if wt =? 2 then
-          match rd_bytes r with
-          | Some (body, r') =>
-              match dec_md_into body (match wr_md x with Some m => m | None => md_zero end) with
-              | Some m => Some (r', mkWr (Some m) (wr_spec x) (wr_unk x))
-              | None => None
-              end
-          | None => None
-          end
-        else None
-      else if fn =? 2 then
-        if wt =? 2 then
-          match rd_bytes r with
-          | Some (body, r') =>
-              match dec_spec_into body (match wr_spec x with Some s => s | None => sp_zero end) with
-              | Some s => Some (r', mkWr (wr_md x) (Some s) (wr_unk x))
-              | None => None
-              end
-          | None => None
-          end
-        else None
-      else match skip_one b with
-           | Some r' => Some (r', mkWr (wr_md x) (wr_spec x) (wr_unk x ++ consumed b r'))
-           | None => None
-           end
+  | Some (fn, wt, r) => wr_field fn wt b r x
   end.
 Definition dec_res (b : list N) : option wres := loop wr_step (length b) b wr_zero.
